@@ -1,11 +1,11 @@
-import FitModel.CsvSpec
+import FitModel.Csv
 /-!
 Facts about the REGENERATED tables (`Generated/CsvProfile.lean`: the profile as the converters see it, the CSV reader's
 two lookup tables), decided by kernel evaluation. These are the obligations a change of the profile, of
 `MesgNum.String()` or of the generated `lookup_gen.go` breaks.
 -/
 namespace Fit.Csv
-open Fit.Gen Fit.Gen.Csv
+open Fit.Value Fit.Gen Fit.Gen.Csv
 
 /-- the reader's message-name table inverts `MesgNum.String()` on every listed number below the manufacturer range,
 and no message name looks like "unknown…" -/
